@@ -253,6 +253,7 @@ def _subprocess_run_duplicate_streams(cmd, timeout):
                 sys.stderr.flush()
                 streams["out"] += stdout_part
                 streams["err"] += stderr_part
+                return bool(stdout_part or stderr_part)
 
             # Start child process, writing its standard streams to temporary files
             proc = subprocess.Popen(  # pylint: disable=consider-using-with  # nosec
@@ -276,9 +277,10 @@ def _subprocess_run_duplicate_streams(cmd, timeout):
 
                 _duplicate_streams()
 
-            # Read/write once more to grab everything that the process wrote between
+            # Read/write until EOF to grab everything that the process wrote between
             # our last read in the loop and exiting, i.e. breaking the loop.
-            _duplicate_streams()
+            while _duplicate_streams():
+                pass
 
     finally:
         # The work is done or was interrupted, the temp files can be removed
